@@ -2,3 +2,4 @@
 import Generated.Constants
 import Generated.Registry
 import Generated.KnnDecision
+import Generated.Seeded
